@@ -276,30 +276,55 @@ class Flattener:
             if m.kw != "module":
                 continue
             self.own_prefix[name] = m.val("prefix")
-            pm = {m.val("prefix"): name}
             self.typedefs[name] = {}
             self.groupings[name] = {}
             for unit in self.units(name):
-                for imp in unit.findall("import"):
-                    pm[imp.val("prefix")] = imp.arg
                 for td in unit.findall("typedef"):
                     self.typedefs[name][td.arg] = td
                 for g in unit.findall("grouping"):
                     self.groupings[name][g.arg] = g
-            self.prefix[name] = pm
+        # RFC 7950 5.1 / 7.1.5: a prefix is resolved in the (sub)module the statement is written in - every submodule
+        # has its OWN imports; its belongs-to prefix stands for the module it belongs to
         for name, m in mods.items():
-            m.stamp(self.main.get(name, name))
+            if m.kw == "submodule":
+                pm = {m.find("belongs-to").val("prefix"): self.main[name]}
+            else:
+                pm = {m.val("prefix"): name}
+            for imp in m.findall("import"):
+                pm[imp.val("prefix")] = imp.arg
+            self.prefix[name] = pm
+            m.stamp(name)                # the UNIT (module or submodule) a statement is written in
 
     def units(self, name):
         """the module statement followed by its submodules in include order"""
         m = self.mods[name]
         return [m] + [self.mods[i.arg] for i in m.findall("include")]
 
-    def qname(self, ref, mod):
+    def qname(self, ref, unit):
+        """-> (module name, local name) of a possibly prefixed reference written in the given unit"""
         if ":" in ref:
             p, n = ref.split(":", 1)
-            return self.prefix[mod][p], n
-        return mod, ref
+            return self.prefix[unit][p], n
+        return self.main.get(unit, unit), ref
+
+    def out_prefixes(self, name):
+        """prefixes of the flattened module: its own imports keep their prefix, a module that only a submodule imports
+        (or imports under a prefix the module uses otherwise) gets a fresh one"""
+        units = self.units(name)
+        out = {}
+        used = {units[0].val("prefix")}
+        for imp in units[0].findall("import"):
+            out[imp.arg] = imp.val("prefix")
+            used.add(imp.val("prefix"))
+        for unit in units[1:]:
+            for imp in unit.findall("import"):
+                if imp.arg not in out:
+                    p = imp.val("prefix")
+                    while p in used:
+                        p = "x" + p
+                    out[imp.arg] = p
+                    used.add(p)
+        return out
 
     # ---- if-feature / when in internal form ----
     def norm_props(self, node):
@@ -308,8 +333,9 @@ class Flattener:
             if s.kw == "if-feature" and isinstance(s.arg, str):
                 s.arg = ("#", self.qual_iff(iff_parse_q(s.arg), s.mod))
             elif s.kw == "when" and isinstance(s.arg, str):
-                m = re.fullmatch(r"(?:[a-z]+:)?([A-Za-z0-9_-]+) = '([^']*)'", s.arg)
-                s.arg = (m.group(1), m.group(2), 0)
+                m = re.fullmatch(r"(?:([a-z0-9]+):)?([A-Za-z0-9_-]+) = '([^']*)'", s.arg)
+                wmod = self.qname((m.group(1) + ":" if m.group(1) else "") + m.group(2), s.mod)[0]
+                s.arg = (m.group(2), m.group(3), 0, wmod)
 
     def qual_iff(self, e, mod):
         if isinstance(e, str):
@@ -376,7 +402,7 @@ class Flattener:
             # target); under choice / case it is the closest ancestor data node - the same node, the path is unchanged;
             # under any other data definition statement it is the node itself - one more step up
             up = when[2] if node.kw in ("choice", "case") else when[2] + 1
-            node.subs.insert(0, S("when", (when[0], when[1], up), mod=node.mod))
+            node.subs.insert(0, S("when", (when[0], when[1], up) + tuple(when[3:]), mod=node.mod))
 
     def own_conditions(self, st):
         self.norm_props(st)
@@ -545,7 +571,10 @@ class Flattener:
                 if s.kw == "if-feature" and not isinstance(s.arg, str):
                     s.arg = self.iff_out(s.arg[1], outmod)
                 elif s.kw == "when" and not isinstance(s.arg, str):
-                    s.arg = "../" * s.arg[2] + "%s = '%s'" % (s.arg[0], s.arg[1])
+                    wp = ""
+                    if len(s.arg) > 3 and s.arg[3] != outmod:
+                        wp = self.outpfx[s.arg[3]] + ":"
+                    s.arg = "../" * s.arg[2] + "%s%s = '%s'" % (wp, s.arg[0], s.arg[1])
             self.externalise([c for c in n.subs if c.kw in DATA_KW], outmod)
 
     def iff_out(self, e, outmod, top=True):
@@ -553,8 +582,7 @@ class Flattener:
             m, n = e.split(":")
             if m == outmod:
                 return n
-            p = [p for p, mm in self.prefix[outmod].items() if mm == m][0]
-            return p + ":" + n
+            return self.outpfx[m] + ":" + n
         if e[0] == "not":
             return "not " + self.iff_out(e[1], outmod, False)
         t = "%s %s %s" % (self.iff_out(e[1], outmod, False), e[0], self.iff_out(e[2], outmod, False))
@@ -569,12 +597,9 @@ class Flattener:
         out = S("module", name)
         for kw in ("yang-version", "namespace", "prefix"):
             out.add(m.find(kw).copy())
-        seen = set()
-        for unit in units:
-            for imp in unit.findall("import"):
-                if imp.arg not in seen:
-                    seen.add(imp.arg)
-                    out.add(imp.copy())
+        self.outpfx = self.out_prefixes(name)
+        for imod, ipfx in self.outpfx.items():
+            out.add(S("import", imod).add(S("prefix", ipfx)))
         for unit in units:
             for f in unit.findall("feature"):
                 out.add(f.copy())
@@ -584,16 +609,22 @@ class Flattener:
         foreign = []
         for unit in units:
             for ag in unit.findall("augment"):
-                tmod = self.qname(ag.arg.strip("/").split("/")[0], name)[0]
+                tmod = self.qname(ag.arg.strip("/").split("/")[0], ag.mod)[0]
                 if tmod == name:
                     t = self.descend(top, ag.arg)
                     assert t is not None, ("augment target", ag.arg)
                     self.apply_augment(t, ag)
                 else:
-                    a2 = S("augment", ag.arg, mod=name)
+                    # the target path with the prefixes of the flattened module
+                    segs = []
+                    for seg in ag.arg.strip("/").split("/"):
+                        smod, snm = self.qname(seg, ag.mod)
+                        segs.append((self.outpfx[smod] + ":" if smod != name else m.val("prefix") + ":") + snm)
+                    a2 = S("augment", "/" + "/".join(segs), mod=ag.mod)
                     for s in ag.subs:
                         if s.kw not in DATA_KW:
                             a2.subs.append(s.copy())
+                    self.norm_props(a2)
                     a2.subs += self.expand_nodes([c for c in ag.subs if c.kw in DATA_KW])
                     foreign.append(a2)
         for dev in deviations:
@@ -958,6 +989,14 @@ def canon_key(eff, v):
     return v
 
 
+def reprefix(st, old, new):
+    """rewrite the prefix old: to new: in every argument that holds prefixed names"""
+    if st.kw in ("augment", "deviation", "if-feature", "type", "uses", "when") and isinstance(st.arg, str):
+        st.arg = re.sub(r"(?<![A-Za-z0-9_-])%s:" % re.escape(old), new + ":", st.arg)
+    for c in st.subs:
+        reprefix(c, old, new)
+
+
 def walk(nodes, prefix="", keys=(), state=False, in_choice=False):
     """(relative path, node, is key, under config false, inside a choice) of every data node"""
     for n in nodes:
@@ -1241,7 +1280,42 @@ class SetGen(Gen):
                 used.append(p)
                 fd.add(dv)
         self.fd = fd.stamp("fd")
-        return {"fa": fa, "fa-sub": sub, "fb": self.fb, "fc": self.fc, "fd": self.fd}
+        mods = {"fa": fa, "fa-sub": sub, "fb": self.fb, "fc": self.fc, "fd": self.fd}
+        # statements living in a submodule resolve their prefixes in the submodule's OWN imports: part of the augments of
+        # fb / the deviations of fd move into a submodule that imports fa under a prefix the module does not define, or
+        # uses for another import
+        for mname, kw in (("fb", "augment"), ("fd", "deviation")):
+            if rng.random() < 0.55:
+                sm = self.to_submodule(mods[mname], mname + "-sub", kw)
+                if sm is not None:
+                    mods[mname + "-sub"] = sm
+        return mods
+
+    def to_submodule(self, mod, subname, kw):
+        rng = self.rng
+        cand = [s for s in mod.subs if s.kw == kw]
+        if not cand:
+            return None
+        pick = cand if rng.random() < 0.5 else rng.sample(cand, max(1, len(cand) // 2))
+        newp = rng.choice(["t", "t", "a2", "c"])
+        for s in pick:
+            mod.subs.remove(s)
+            reprefix(s, "a", newp)
+        sm = S("submodule", subname).add(S("yang-version", "1.1"), S("belongs-to", mod.arg).add(S("prefix", mod.val("prefix"))),
+                                         S("import", "fa").add(S("prefix", newp)))
+        sm.subs += pick
+        scheme = rng.choice(["absent", "clash", "clash"])
+        last = max(i for i, x in enumerate(mod.subs) if x.kw in ("prefix", "import"))
+        if scheme == "clash":
+            # the module uses the same prefix string for another module
+            mod.subs.insert(last + 1, S("import", "fc").add(S("prefix", newp)))
+            last += 1
+        mod.subs.insert(last + 1, S("include", subname))
+        if not [x for x in mod.subs if x.kw == kw] and rng.random() < 0.4:
+            mod.subs = [x for x in mod.subs if not (x.kw == "import" and x.arg == "fa")]      # fa is imported by the submodule only
+        sm.stamp(mod.arg)
+        mod.stamp(mod.arg)
+        return sm
 
     def deviation(self, p, n, is_key, state, in_choice):
         rng = self.rng
@@ -1704,11 +1778,11 @@ def make_sets(rng):
     """-> structured statements, flattened statements, Python model of the flattened set"""
     g = SetGen(rng)
     mods = g.build()
-    devs = mods["fd"].findall("deviation")
+    devs = mods["fd"].findall("deviation") + (mods["fd-sub"].findall("deviation") if "fd-sub" in mods else [])
     fd_plain = S("module", "fd").add(*[s.copy() for s in mods["fd"].subs if s.kw in ("yang-version", "namespace", "prefix", "import")])
     fl = Flattener(mods)
     fl.dev_mismatch = False
-    f0 = {"fa": fl.flatten_module("fa", devs), "fb": fl.flatten_module("fb"), "fd": fd_plain}
+    f0 = {"fa": fl.flatten_module("fa", devs), "fb": fl.flatten_module("fb"), "fd": fd_plain, "fc": fl.flatten_module("fc")}
     assert not fl.dev_mismatch, "generator: a deviate delete without a matching property"
     return mods, f0, (build_model(f0["fa"], f0["fb"]), getattr(fl, "uses_aug_names", set()))
 
@@ -2089,7 +2163,10 @@ class Family:
                 # the imports and the augments live in a submodule, the module itself has nothing but the include
                 body = hb.split("prefix b;\n", 1)[1]
                 T["hb-sub"] = "submodule hb-sub {yang-version 1.1; belongs-to hb {prefix b;}\n" + body
-                hb = "module hb {yang-version 1.1; namespace urn:hb; prefix b;\n  include hb-sub;\n}\n"
+                # (the module itself may use the submodule's prefix of ha for ANOTHER module: a name written in the
+                # submodule is resolved with the submodule's own imports)
+                clash = "  import hc {prefix a;}\n" if rng.random() < 0.5 else ""
+                hb = "module hb {yang-version 1.1; namespace urn:hb; prefix b;\n%s  include hb-sub;\n}\n" % clash
             T["hb"] = hb
         else:
             self.probes, self.docs, self.before = keep
